@@ -30,6 +30,8 @@
 -/
 import YtkProofs.PipelineFrame
 import YtkProofs.EnvFrame
+import YtkProofs.PipelineDataWF
+import YtkProofs.MergeRel
 
 namespace Ytk.C13
 open Ytk.PD
@@ -460,6 +462,47 @@ theorem env_no_equals_panics (incl excl : String → Bool) (path e : String) (re
     (data : AMap Node) (h : splitEnv e.toList = none) (hs : (incl e && !excl e) = true) :
     envOp incl excl path (e :: rest) data = .panic := by
   simp [envOp, h, hs]
+
+/-! ## every data operation keeps the document a tree of maps
+
+  `Node.WF (.cont d)`: every container of the document, at every depth, has strictly sorted — hence
+  unique — keys.  It is preserved by every data operation, whatever the outcome, provided what comes in
+  from outside is well formed as well: the payload of SetOp (a Go map), the result of dom's Merge
+  (`MergeWF`; holds for the modelled dom merge with either list strategy and for the local copy), the
+  containers the file decoders return (`CodecsWF`), the document patch.Do returns.  (C14 `run_wf` is the
+  same invariant for the interpreter.) -/
+
+theorem set_wf (hm : MergeWF mergeC) (data payload d' : AMap Node) (path : String) (s : Option String)
+    (h : Node.WF (.cont data)) (hp : Node.WF (.cont payload))
+    (hd : setOp mergeC data (some payload) path s = .ok d') : Node.WF (.cont d') :=
+  wf_setOp hm h hp hd
+
+/-- dom's Merge — the model of C04 with either list strategy, and the local copy the driver uses — keeps
+    well-formedness -/
+theorem merge_wf : (∀ o, MergeWF (Ytk.mergeC o)) ∧ MergeWF mergeContainers :=
+  ⟨fun o _ _ ha hb => Ytk.wf_mergeC o ha hb, fun _ _ ha hb => wf_mergeContainers ha hb⟩
+
+/-- TemplateOp, both parse modes (`decodeYamlNode` builds maps with AddValue) -/
+theorem template_wf (render : String → Option String) (lenient trimFn : String → String)
+    (yp : String → Option (Option YNode)) (t : TemplateSpec) (data : AMap Node) (h : Node.WF (.cont data)) :
+    Node.WF (.cont (templateOp render lenient trimFn yp t data).1) :=
+  wf_templateOp render lenient trimFn yp t h
+
+theorem import_wf (cd : Codecs) (hc : CodecsWF cd) (lenient : String → String) (content : Option (List Nat))
+    (mode path : String) (data : AMap Node) (h : Node.WF (.cont data)) :
+    Node.WF (.cont (importOp cd lenient content mode path data).1) :=
+  wf_importOp hc lenient content mode path h
+
+theorem env_wf (incl excl : String → Bool) (path : String) (es : List String) (data d' : AMap Node)
+    (h : Node.WF (.cont data)) (hd : envOp incl excl path es data = .ok d') : Node.WF (.cont d') :=
+  wf_envOp incl excl path es data d' h hd
+
+theorem patch_wf {P : Type} (parsePath : String → Option P) (lenient : String → String)
+    (patchDo : PatchCall P → AMap Node → AMap Node × Bool)
+    (hpd : ∀ c d, Node.WF (.cont d) → Node.WF (.cont (patchDo c d).1))
+    (ps : PatchSpec) (data : AMap Node) (h : Node.WF (.cont data)) :
+    Node.WF (.cont (patchOp parsePath lenient patchDo ps data).1) :=
+  wf_patchOp parsePath lenient patchDo hpd ps h
 
 /-! ## ExportOp -/
 
